@@ -95,7 +95,17 @@ impl<'a> FieldParser<'a> {
             ast::FieldDesc::Scalar { id, width } => {
                 let id = id.to_ident();
                 let value = types::get_uint(self.endianness, *width, self.span);
+                let span = self.span;
+                let packet_name = &self.packet_name;
+                let wanted = proc_macro2::Literal::usize_unsuffixed(width / 8);
                 quote! {
+                    if #cond_id == #cond_value && #span.remaining() < #wanted {
+                        return Err(DecodeError::LengthError {
+                            obj: #packet_name,
+                            wanted: #wanted,
+                            got: #span.remaining(),
+                        });
+                    }
                     let #id = (#cond_id == #cond_value).then(|| #value);
                 }
             }
@@ -107,7 +117,16 @@ impl<'a> FieldParser<'a> {
                     let type_id = type_id.to_ident();
                     let decl_id = &self.packet_name;
                     let value = types::get_uint(self.endianness, *width, self.span);
+                    let span = self.span;
+                    let wanted = proc_macro2::Literal::usize_unsuffixed(width / 8);
                     quote! {
+                        if #cond_id == #cond_value && #span.remaining() < #wanted {
+                            return Err(DecodeError::LengthError {
+                                obj: #decl_id,
+                                wanted: #wanted,
+                                got: #span.remaining(),
+                            });
+                        }
                         let #id = (#cond_id == #cond_value)
                             .then(||
                                 #type_id::try_from(#value).map_err(|unknown_val| {
